@@ -5,6 +5,8 @@ import SSV.Proofs.SaltPool
 import SSV.Proofs.SaltPoolInv
 import SSV.Proofs.SaltPoolConc
 import SSV.Proofs.SaltPoolLock
+import SSV.Proofs.SaltPoolFallback
+import SSV.Proofs.SaltPoolFast
 /-
 C03 — A TCP handshake is accepted at most once while its timestamp is acceptable.
 
@@ -76,6 +78,27 @@ theorem gen_src_tryContains : SSV.Gen.C03.srcTryContains =
     "{ if p.mu.TryRLock() { _, ok := p.nodeBySalt[salt] p.mu.RUnlock() return ok } return false }" := rfl
 theorem gen_src_validateTimestamp : SSV.Gen.C03.srcValidateTimestamp =
     "{ tsEpoch := int64(binary.BigEndian.Uint64(b)) nowEpoch := now.Unix() diff := tsEpoch - nowEpoch if diff < -MaxEpochDiff || diff > MaxEpochDiff { return &HeaderError[int64]{ErrBadTimestamp, nowEpoch, tsEpoch} } return nil }" := rfl
+
+/-- the deferred fallback decision of `HandleStream`, verbatim: fall back iff `err != nil && n > 0 && fallback
+configured` — this is `outcome` -/
+theorem gen_src_handle_defer : SSV.Gen.C03.srcHandleDefer =
+    "defer func() { if err != nil { if n > 0 && s.unsafeFallbackAddr.IsValid() { logger.Warn(\"Initiating fallback for unauthenticated connection\", zap.Error(err)) req = netio.ConnRequest{ PendingConn: netio.NopPendingConn(rawRW), Addr: s.unsafeFallbackAddr, Payload: readBuf[:n], } err = nil return } if tc, ok := rawRW.(*net.TCPConn); ok { s.rejectPolicy(tc, logger) } } }()" := rfl
+
+/-- `n` is assigned exactly twice: by the first read, and `n = 0` (stage `commit`, right after `Add` succeeded —
+see `gen_handle_stages` for its position) -/
+theorem gen_handle_assigns_n : SSV.Gen.C03.handleAssignsN =
+    ["n, err = s.readOnceOrFull(rawRW, readBuf)", "n = 0"] := by decide
+
+/-- **UDP side of the same constant.** `NewUDPServer` advertises `ReplayWindowDuration` as the minimum NAT timeout
+(a UDP session must outlive the validity span of the packets that created it, or an evicted session can be re-created
+by a replay): written as that constant, and evaluating to the value the TCP side uses. -/
+theorem gen_udp_min_nat_timeout :
+    SSV.Gen.C03.udpMinNATTimeoutExpr = "ReplayWindowDuration" ∧ SSV.Gen.C03.udpMinNATTimeout = P.window :=
+  ⟨rfl, rfl⟩
+
+/-- … and the side condition holds for it as well: a change of the advertised minimum (or of the constant) that lets
+UDP sessions be evicted inside the 61 s validity span re-opens this obligation. -/
+theorem gen_udp_side_condition : (2 * P.maxEpochDiff + 1) * nsPerSec ≤ SSV.Gen.C03.udpMinNATTimeout := by decide
 
 /-- the "30 seconds" of the statement -/
 theorem gen_max_epoch_diff : P.maxEpochDiff = 30 := by decide
@@ -183,6 +206,91 @@ theorem fresh_never_refused (c : Bool) (now : Nat) (salt : Salt) (ts : BitVec 64
   rw [handle_eq]
   simp [genuine, htc, hv, hadd]
 
+/-! ## Servers with a fallback address (`UnsafeFallbackAddr`)
+
+`handleStream P fb gotBytes …` = `handle` followed by the deferred decision (`gen_src_handle_defer`): an error becomes a
+fallback request iff `fb` (a fallback address is configured) and `gotBytes` (`n > 0`), except after `commit`.
+The pool evolves exactly as without a fallback (`handleStream_fst`), so every history theorem above applies verbatim.
+-/
+
+/-- a genuine client request is returned iff the accept logic accepted — the fallback never turns anything into an
+acceptance, and never hides one -/
+theorem fallback_accepts_same (fb g c : Bool) (now : Nat) (r : Request) (pool : Pool) :
+    (handleStream P fb g c now r pool).2 = .accepted ↔ (handle P c now r pool).2 = .accepted := by
+  rw [handleStream_snd]; exact outcome_accepted_iff fb g _
+
+/-- **No double accept through the fallback path**, for every server configuration `fb` and every `n`: the statement of
+`no_double_accept` for the outcome of `HandleStream` including its deferred function. -/
+theorem no_double_accept_fallback (fb g₁ g₂ : Bool) (st : State) (ops₁ ops₂ : List Op) (r r₂ : Request) (c₁ c₂ : Bool)
+    (hsame : r₂.salt = r.salt ∧ r₂.ts = r.ts) :
+    let s₁ := run P st ops₁
+    (handleStream P fb g₁ c₁ s₁.now r s₁.pool).2 = .accepted →
+    let s₂ := run P (step P s₁ (.present r c₁)).1 ops₂
+    ClockOk P s₁.now → ClockOk P s₂.now →
+    tsValid P r₂.ts s₂.now = true →
+    (handleStream P fb g₂ c₂ s₂.now r₂ s₂.pool).2 ≠ .accepted := by
+  intro s₁ hacc s₂ hc1 hc2 hv2 h
+  exact no_double_accept st ops₁ ops₂ r r₂ c₁ c₂ hsame ((fallback_accepts_same ..).mp hacc) hc1 hc2 hv2
+    ((fallback_accepts_same ..).mp h)
+
+/-- **A replayed genuine request on a fallback server is handed to the fallback**, as a repeated salt, whichever of
+the two salt checks catches it (`TryContains` or, under contention, `Add`), and it adds nothing to the pool. -/
+theorem replay_goes_to_fallback (st : State) (ops₁ ops₂ : List Op) (r : Request) (c₁ c₂ : Bool) (hg : Good r) :
+    let s₁ := run P st ops₁
+    (handleStream P true true c₁ s₁.now r s₁.pool).2 = .accepted →
+    let s₂ := run P (step P s₁ (.present r c₁)).1 ops₂
+    ClockOk P s₁.now → ClockOk P s₂.now →
+    tsValid P r.ts s₂.now = true →
+    (handleStream P true true c₂ s₂.now r s₂.pool).2 = .fallback .repeatedSalt ∧
+    ((handleStream P true true c₂ s₂.now r s₂.pool).1 = s₂.pool ∨
+     (handleStream P true true c₂ s₂.now r s₂.pool).1 = pruneExpired s₂.now s₂.pool) := by
+  intro s₁ hacc s₂ hc1 hc2 hv2
+  have hacc' := (fallback_accepts_same ..).mp hacc
+  obtain ⟨_, _, _, _, _, _, hv1, hadd, _, hpool⟩ := handle_accepted hacc'
+  let n : Node := { salt := r.salt, expiresAt := s₁.now + P.window }
+  have hn : n ∈ (step P s₁ (.present r c₁)).1.pool := by
+    show n ∈ (handle P c₁ s₁.now r s₁.pool).1
+    rw [hpool]; exact add_true_mem hadd
+  have hlive : Live n s₂ := live_run ops₂ (Or.inl hn)
+  have hspan := valid_span P r.ts s₁.now s₂.now hc1 hc2 hv1 hv2
+  have hside := gen_side_condition
+  have hlt : s₂.now < n.expiresAt := by show s₂.now < s₁.now + P.window; omega
+  have hmem : n ∈ s₂.pool := by
+    rcases hlive with h | h
+    · exact h
+    · omega
+  obtain ⟨hrep, hp⟩ := handle_repeated_of_live (P := P) (c := c₂) hg hv2 hmem rfl hlt
+  refine ⟨?_, hp⟩
+  rw [handleStream_snd, hrep]; rfl
+
+/-- **`failed_is_noop` for the fallback outcome.** Whatever is handed to the fallback left no node behind: the pool is
+exactly as before, or — only when the refusal came from `Add` (a replay whose `TryContains` pre-check was skipped) —
+it was pruned of expired nodes and nothing else. Unauthenticated bytes in particular (`r.forged`) change nothing. -/
+theorem failed_is_noop_fallback (g c : Bool) (now : Nat) (r : Request) (pool : Pool) (v : Verdict)
+    (h : (handleStream P true g c now r pool).2 = .fallback v) :
+    ((handleStream P true g c now r pool).1 = pool ∨
+      ((handleStream P true g c now r pool).1 = pruneExpired now pool ∧ v = .repeatedSalt)) ∧
+    (∀ n ∈ (handleStream P true g c now r pool).1, n ∈ pool) ∧
+    (r.forged = true → (handleStream P true g c now r pool).1 = pool) := by
+  rw [handleStream_snd] at h
+  obtain ⟨hvw, _, _, hna, hnl⟩ := outcome_fallback h
+  rw [handleStream_fst]
+  have hcases := handle_refused_pool hna hnl
+  refine ⟨?_, ?_, fun hf => (failed_is_noop c now r pool (Or.inl hf)).1⟩
+  · rcases hcases with hp | ⟨hp, hr⟩
+    · exact Or.inl hp
+    · exact Or.inr ⟨hp, by rw [← hvw, hr]⟩
+  · intro n hn
+    rcases hcases with hp | ⟨hp, _⟩
+    · rw [hp] at hn; exact hn
+    · rw [hp] at hn; exact mem_of_mem_prune hn
+
+/-- without a fallback address, or when the first read delivered nothing, every refusal is an error -/
+theorem no_fallback_without_config (fb g c : Bool) (now : Nat) (r : Request) (pool : Pool) (v : Verdict)
+    (h : (handleStream P fb g c now r pool).2 = .fallback v) : fb = true ∧ g = true := by
+  rw [handleStream_snd] at h
+  exact ⟨(outcome_fallback h).2.1, (outcome_fallback h).2.2.1⟩
+
 /-- **Expiry order = insertion order.** From a well-formed state (e.g. the empty pool) every history on the
 monotone clock keeps the list sorted by expiry, every expiry at most one window ahead, and salts distinct; hence
 pruning the expired *prefix* removes every expired node. -/
@@ -246,6 +354,23 @@ theorem pool_unbounded (N : Nat) : (run P { now := 0, pool := [] } (flood N)).po
     rcases List.mem_append.mp hn with hn | hn
     · exact ⟨Nat.lt_succ_of_lt (hall n hn).1, (hall n hn).2⟩
     · rw [List.mem_singleton.mp hn]; exact ⟨Nat.lt_succ_self k, Nat.zero_add _⟩
+
+/-- **Salts in the pool stay distinct** under `Add` with any instants (also the non-monotone ones of concurrent
+callers) and under any presentation — the code's map `nodeBySalt` and its linked list never disagree. -/
+theorem salts_stay_distinct (now : Nat) (s : Salt) (c : Bool) (r : Request) (p : Pool) (h : SaltsNodup p) :
+    SaltsNodup (add P now s p).1 ∧ SaltsNodup (handle P c now r p).1 := by
+  refine ⟨nodup_add P now s p h, ?_⟩
+  rcases handle_pool P c now r p with hp | ⟨_, _, _, hp⟩ <;> rw [hp]
+  · exact h
+  · exact nodup_add P now r.salt p h
+
+/-- **The fast executable pool computes the list model.** The driver runs long floods (2^16-class and larger) on a
+front/back list + hash set representation (the shape of the Go code: linked list + map); for every pool with distinct
+salts and every batch of `Add` calls it yields exactly the list model's final pool and number of `true` answers. -/
+theorem fast_pool_refines (p : Pool) (cs : List ACall) (hnd : SaltsNodup p) :
+    (fcountAdds P (FPool.ofPool p) cs).1.toPool = (countAdds P p cs).1 ∧
+    (fcountAdds P (FPool.ofPool p) cs).2 = (countAdds P p cs).2 :=
+  fcountAdds_refines P p cs hnd
 
 /-! ## k concurrent presentations of one request -/
 
@@ -386,6 +511,18 @@ example :
 /-- `retained_until_expiry`: hypotheses satisfiable after a flood of 3 other requests -/
 example : ({ salt := 0, expiresAt := P.window } : Node) ∈ (run P { now := 0, pool := [] } (flood 1)).pool ∧
     (run P (run P { now := 0, pool := [] } (flood 1)) (flood 4)).now < P.window := by decide
+/-- `replay_goes_to_fallback` / `failed_is_noop_fallback`: on a fallback server the first presentation is accepted, the
+replay (pre-check contended) goes to the fallback, a forged copy goes to the fallback, an empty read is an error -/
+example :
+    let r := genuine 1 946684830#64
+    let p₁ := (handleStream P true true false t₀ r []).1
+    (handleStream P true true false t₀ r []).2 = .accepted ∧
+    (handleStream P true true true (t₀ + 60100000000) r p₁).2 = .fallback .repeatedSalt ∧
+    (handleStream P true true false t₀ { r with authOk := false } p₁).2 = .fallback .repeatedSalt ∧
+    (handleStream P true true false t₀ { r with salt := 2, authOk := false } p₁).2 = .fallback .authFail ∧
+    (handleStream P true false false t₀ { r with complete := false } p₁).2 = .error .shortRead := by decide
+/-- `fast_pool_refines` / `salts_stay_distinct`: the empty pool has distinct salts -/
+example : SaltsNodup ([] : Pool) := by simp [SaltsNodup]
 /-- `pool_sorted`: the empty pool is well-formed -/
 example : WF P { now := t₀, pool := [] } := wf_empty P t₀
 /-- `concurrent_one_winner`: two threads, the second one's `TryContains` contended, clocks out of order -/
@@ -405,6 +542,10 @@ end SSV.C03
 #print axioms SSV.C03.gen_src_contains
 #print axioms SSV.C03.gen_src_tryContains
 #print axioms SSV.C03.gen_src_validateTimestamp
+#print axioms SSV.C03.gen_src_handle_defer
+#print axioms SSV.C03.gen_handle_assigns_n
+#print axioms SSV.C03.gen_udp_min_nat_timeout
+#print axioms SSV.C03.gen_udp_side_condition
 #print axioms SSV.C03.gen_max_epoch_diff
 #print axioms SSV.C03.gen_side_condition
 #print axioms SSV.C03.ts_valid_word_iff
@@ -415,9 +556,16 @@ end SSV.C03
 #print axioms SSV.C03.failed_is_noop
 #print axioms SSV.C03.forged_invisible
 #print axioms SSV.C03.fresh_never_refused
+#print axioms SSV.C03.fallback_accepts_same
+#print axioms SSV.C03.no_double_accept_fallback
+#print axioms SSV.C03.replay_goes_to_fallback
+#print axioms SSV.C03.failed_is_noop_fallback
+#print axioms SSV.C03.no_fallback_without_config
 #print axioms SSV.C03.pool_sorted
 #print axioms SSV.C03.retained_until_expiry
 #print axioms SSV.C03.pool_unbounded
+#print axioms SSV.C03.salts_stay_distinct
+#print axioms SSV.C03.fast_pool_refines
 #print axioms SSV.C03.concurrent_one_winner
 #print axioms SSV.C03.replay_possible
 #print axioms SSV.C03.replay_possible_before_fix
